@@ -11,7 +11,10 @@
 EXTENDS Common, Json
 
 CONSTANTS MaxMentions,
-          ShapeIdx        \* which of the mention shapes below are generated
+          ShapeIdx,       \* which of the mention shapes below are generated
+          Wrapper         \* "none": the element is x;  "label-inp": the element is the snippet inp inside a label - the definition
+                          \* input[type=${1:text}] + [name=${1} id=${1}] brings attributes of its own and the label addon (on by
+                          \* default) removes the snippet's empty id, never the id the user wrote
 
 NONE == "<none>"          \* "no value written"
 (* s: as written; nm: attribute name; val: value or NONE; vt: raw | dq | sq | expr; b: boolean mark; im: implied mark *)
@@ -54,7 +57,13 @@ vars == <<abbr, mentions, merged, reverse, rep>>
 (* rep: number of copies - the element may finally be written with the repeater *2; every copy carries the same attributes *)
 (* merged: sequence of [nm, val, vt, b, im] - the node's attribute list after the mentions seen so far *)
 
-Init == abbr = "x" /\ mentions = <<>> /\ merged = <<>> /\ reverse \in BOOLEAN /\ rep = 1
+PrefixM == IF Wrapper = "label-inp"
+           THEN << [s |-> "", nm |-> "type", val |-> "text", vt |-> "raw", b |-> FALSE, im |-> FALSE],
+                   [s |-> "", nm |-> "name", val |-> "",     vt |-> "raw", b |-> FALSE, im |-> FALSE] >>      \* id=${1}: removed by the addon
+           ELSE <<>>
+Init == /\ abbr = (IF Wrapper = "label-inp" THEN "label>inp" ELSE "x") /\ mentions = <<>>
+        /\ merged = [i \in 1..Len(PrefixM) |-> [nm |-> PrefixM[i].nm, val |-> PrefixM[i].val, vt |-> PrefixM[i].vt, b |-> FALSE, im |-> FALSE]]
+        /\ reverse \in (IF Wrapper = "none" THEN BOOLEAN ELSE {FALSE}) /\ rep = 1
 
 Find(lst, nm) == IF \E i \in 1..Len(lst) : lst[i].nm = nm THEN CHOOSE i \in 1..Len(lst) : lst[i].nm = nm ELSE 0
 JoinVal(a, b) == IF a = NONE THEN b ELSE IF b = NONE THEN a ELSE IF a = "" THEN b ELSE a \o " " \o b
@@ -72,14 +81,14 @@ Mention == /\ Len(mentions) < MaxMentions /\ rep = 1
                 /\ mentions' = Append(mentions, k)
                 /\ merged' = IF Second(k) = <<>> THEN MergeStep(merged, Shapes[k]) ELSE MergeStep(MergeStep(merged, Shapes[k]), Second(k)[1])
            /\ UNCHANGED <<reverse, rep>>
-Repeat2 == /\ rep = 1 /\ Len(mentions) >= 1 /\ rep' = 2 /\ abbr' = abbr \o "*2" /\ UNCHANGED <<mentions, merged, reverse>>
+Repeat2 == /\ Wrapper = "none" /\ rep = 1 /\ Len(mentions) >= 1 /\ rep' = 2 /\ abbr' = abbr \o "*2" /\ UNCHANGED <<mentions, merged, reverse>>
 Next == Mention \/ Repeat2
 Spec == Init /\ [][Next]_vars
 
 (* --------------------------------------------------------------- contract *)
 RECURSIVE AllMentions(_)
 AllMentions(ms) == IF ms = <<>> THEN <<>> ELSE <<Shapes[Head(ms)]>> \o Second(Head(ms)) \o AllMentions(Tail(ms))
-Ms == AllMentions(mentions)
+Ms == PrefixM \o AllMentions(mentions)
 NamesInOrder ==           \* names by first mention
     LET RECURSIVE F(_, _)
         F(i, acc) == IF i > Len(Ms) THEN acc
@@ -113,7 +122,7 @@ Booleans == {"contenteditable", "seamless", "async", "autofocus", "autoplay", "c
 MapName(syntax, nm) == IF syntax = "jsx" THEN (IF nm = "class" THEN "className" ELSE IF nm = "for" THEN "htmlFor" ELSE nm) ELSE nm
 UpperOf(s) == CASE s = "id" -> "ID" [] s = "class" -> "CLASS" [] s = "className" -> "CLASSNAME" [] s = "t" -> "T" [] s = "d" -> "D"
                 [] s = "m" -> "M" [] s = "disabled" -> "DISABLED" [] s = "u" -> "U" [] s = "e" -> "E" [] s = "for" -> "FOR"
-                [] s = "htmlFor" -> "HTMLFOR" [] s = "g" -> "G" [] s = "h" -> "H" [] s = "k" -> "K"
+                [] s = "htmlFor" -> "HTMLFOR" [] s = "g" -> "G" [] s = "h" -> "H" [] s = "k" -> "K" [] s = "type" -> "TYPE" [] s = "name" -> "NAME"
 EmitOne(a, row) ==       \* <<>> when the attribute is dropped, else << [n, q, v] >>; q = NONE: printed without "=" part
     LET hasVal == a.val # NONE /\ a.val # ""
         nm0 == MapName(row.syntax, a.nm)
@@ -142,6 +151,6 @@ EmitInv == \A r \in 1..Len(Rows) :
               LET e == Emit(merged, Rows[r]) IN \A i, j \in 1..Len(e) : e[i].n = e[j].n => i = j
 
 Dump == Len(mentions) >= 1 =>
-          PrintT(<<"VEC", ToJson([abbr |-> abbr, reverse |-> reverse, silent |-> Silent, rep |-> rep,
+          PrintT(<<"VEC", ToJson([abbr |-> abbr, reverse |-> reverse, silent |-> Silent, rep |-> rep, el |-> IF Wrapper = "label-inp" THEN "input" ELSE "x",
                                    rows |-> [r \in 1..Len(Rows) |-> [row |-> Rows[r], attrs |-> Emit(merged, Rows[r])]]])>>)
 =============================================================================
